@@ -91,39 +91,59 @@ def grammar_p5(rep, st):
            detail=None if ok else 'a tmp. name is accepted (see C14/C15 for the witness)')
 
 
+STRACE_REPLAY = '''
+# a real 3-call recording under strace: the publication protocol is checked on the syscall trace (a kill between any two of these
+# syscalls leaves what the trace shows at that point)
+from vlib import build, common
+import os, re, shutil, subprocess, sys, tempfile
+top = tempfile.mkdtemp(prefix='drfstrace-'); ch = os.path.join(top, 'ch'); os.makedirs(ch)
+prog = os.path.join(top, 'p.py'); open(prog, 'w').write(%r %% (common.VERIF,))
+out = os.path.join(top, 'trace')
+build.clib()
+problems = []
+for cont in ('0', '1'):
+    shutil.rmtree(ch, ignore_errors=True); os.makedirs(ch)
+    r = subprocess.run(['strace', '-f', '-e', 'trace=openat,rename,renameat,renameat2,close,unlink,mkdir', '-o', out, sys.executable, prog, ch, cont],
+                       env=dict(os.environ, VERIF_SCRATCH_BASE=top), stdout=subprocess.DEVNULL, stderr=subprocess.PIPE, text=True, timeout=300)
+    tr = open(out).read() if os.path.exists(out) else ''
+    fds = {}; renames = 0; creates = 0
+    for ln in tr.splitlines():
+        m = re.search(r'openat\\([^,]+, "([^"]+)", ([^)]*)\\)\\s+= (\\d+)', ln)
+        if m and ch in m.group(1) and 'O_CREAT' in m.group(2):
+            base = os.path.basename(m.group(1)); creates += 1
+            if not base.startswith('tmp.'): problems.append('created under final name: ' + base)
+            if 'O_EXCL' not in m.group(2) and base.startswith('tmp.rf@'): problems.append('data file created without O_EXCL: ' + base)
+            fds[m.group(3)] = m.group(1)
+            continue
+        m = re.search(r'close\\((\\d+)\\)', ln)
+        if m and m.group(1) in fds: fds.pop(m.group(1)); continue
+        m = re.search(r'rename[a-z0-9]*\\((?:[^,"]+, )?"([^"]+)", (?:[^,"]+, )?"([^"]+)"', ln)
+        if m and ch in m.group(1):
+            renames += 1
+            a, b = m.group(1), m.group(2)
+            if os.path.basename(a) != 'tmp.' + os.path.basename(b) or os.path.dirname(a) != os.path.dirname(b): problems.append('rename %%s -> %%s' %% (a, b))
+            if a in fds.values(): problems.append('renamed while still open (a kill now leaves an incomplete file under its final name): ' + os.path.basename(a))
+    left = [f for d_, _, fs in os.walk(ch) for f in fs if f.startswith('tmp.')]
+    if left: problems.append('tmp file left after close: %%s' %% left[:2])
+    if renames < 3 or creates < 4: problems.append('trace incomplete (%%d creates, %%d renames): %%s' %% (creates, renames, r.stderr[-200:])); print('\\n'.join(problems)); shutil.rmtree(top, ignore_errors=True); sys.exit(3)
+    print('cont=%%s: %%d creates, %%d renames' %% (cont, creates, renames))
+shutil.rmtree(top, ignore_errors=True)
+for p_ in problems: print('PROBLEM:', p_)
+sys.exit(1 if problems else 0)
+''' % (STRACE_PROG.replace("cfg['cont'])", "int(sys.argv[2]))"),)
+
+
 def strace_validation(rep):
-    """run a real 3-call recording under strace and check the protocol on the syscall trace (validates the event model / stubs)"""
-    top = tempfile.mkdtemp(prefix='drfstrace-'); ch = os.path.join(top, 'ch'); os.makedirs(ch)
-    try:
-        prog = os.path.join(top, 'p.py'); open(prog, 'w').write(STRACE_PROG % (common.VERIF,))
-        out = os.path.join(top, 'trace')
-        build.clib()
-        r = subprocess.run(['strace', '-f', '-e', 'trace=openat,rename,renameat,renameat2,close,unlink,mkdir', '-o', out, sys.executable, prog, ch],
-                           env=dict(os.environ, VERIF_SCRATCH_BASE=top), stdout=subprocess.DEVNULL, stderr=subprocess.PIPE, text=True, timeout=300)
-        tr = open(out).read() if os.path.exists(out) else ''
-        fds = {}; problems = []; renames = 0; creates = 0
-        for ln in tr.splitlines():
-            m = re.search(r'openat\([^,]+, "([^"]+)", ([^)]*)\)\s+= (\d+)', ln)
-            if m and ch in m.group(1) and 'O_CREAT' in m.group(2):
-                base = os.path.basename(m.group(1)); creates += 1
-                if not base.startswith('tmp.'): problems.append('created under final name: ' + base)
-                fds[m.group(3)] = m.group(1)
-                continue
-            m = re.search(r'close\((\d+)\)', ln)
-            if m and m.group(1) in fds: fds.pop(m.group(1)); continue
-            m = re.search(r'rename[a-z0-9]*\((?:[^,"]+, )?"([^"]+)", (?:[^,"]+, )?"([^"]+)"', ln)
-            if m and ch in m.group(1):
-                renames += 1
-                a, b = m.group(1), m.group(2)
-                if os.path.basename(a) != 'tmp.' + os.path.basename(b) or os.path.dirname(a) != os.path.dirname(b): problems.append('rename %s -> %s' % (a, b))
-                if a in fds.values(): problems.append('renamed while still open: ' + a)
-        left = [f for f in os.listdir(ch) if f.startswith('tmp.')] + [f for d in os.listdir(ch) if os.path.isdir(os.path.join(ch, d)) for f in os.listdir(os.path.join(ch, d)) if f.startswith('tmp.')]
-        ok = not problems and renames >= 3 and creates >= 4 and not left
-        rep.replays += 1
-        rep.ob('real writer under strace: files are created only as tmp.rf@* (exclusive), closed before rename tmp.X -> X in the same directory, no tmp file left after close (%d creates, %d renames)' % (creates, renames),
-               'witness' if ok else 'inconclusive', None, 0, 0, 1, detail=None if ok else 'strace: %s %s %s' % (problems[:3], left[:2], r.stderr[-200:]))
-    finally:
-        shutil.rmtree(top, ignore_errors=True)
+    """run real recordings under strace and check the protocol on the syscall trace (validates the event model / stubs)"""
+    path = rep.write_replay('strace_protocol', STRACE_REPLAY)
+    ok, out = rep.run_replay(path, timeout=600)
+    title = 'real writer under strace (gapped and continuous): files are created only as tmp.* (O_EXCL), closed before rename tmp.X -> X in the same directory, no tmp file left after close'
+    if ok is False:
+        rep.ob(title, 'witness', None, 0, 0, 1, detail=out.strip().replace(chr(10), '; ')[-160:]); os.remove(path)
+    elif ok is True:
+        rep.violation(title, 'C02.strace.protocol', out.strip()[-400:], replay_body=STRACE_REPLAY)
+    else:
+        rep.ob(title, 'inconclusive', detail=out[-300:])
 
 
 def main(tier):
